@@ -13,7 +13,7 @@ from asyncio_taskpool import SimpleTaskPool, TaskPool
 from asyncio_taskpool import exceptions as X
 
 from . import vloop
-from .vloop import fresh_loop, release_loop
+from .vloop import fresh_loop, release_loop, teardown_loop
 
 INF = float("inf")
 vloop.install_gather_wrapper()
@@ -86,6 +86,7 @@ class PoolWorld:
         self.cancel_seen = collections.Counter()
         self.cb_begun = collections.Counter()  # (which, key) -> n
         self.cb_done = collections.Counter()
+        self.cb_interrupted = collections.Counter()
         self.cb_open = 0
         self.reqs = {}  # tag -> Req
         self.pulled = collections.Counter()
@@ -289,8 +290,12 @@ class PoolWorld:
                     finally:
                         w.gates.pop(gk, None)
                     w.point(which + "_resume", key, tag)
-            finally:
-                leave(key)
+            except BaseException:
+                # the callback was interrupted (something was thrown into it): it did not run to completion
+                w.cb_open -= 1
+                w.cb_interrupted[(which, key)] += 1
+                raise
+            leave(key)
 
         def raising(i):
             key = enter(i)
@@ -307,6 +312,18 @@ class PoolWorld:
         def plain2(extra, i):
             key = enter(i)
             leave(key)
+
+        def raising2(extra, i):
+            key = enter(i)
+            leave(key)
+            if w._is_slow(which, key):
+                raise CbError((which, tag))
+
+        async def araising2(extra, i):
+            key = enter(i)
+            leave(key)
+            if w._is_slow(which, key):
+                raise CbError((which, tag))
 
         async def coro2(extra, i):
             key = enter(i)
@@ -333,6 +350,8 @@ class PoolWorld:
             "slow": slow,
             "raise": raising,
             "araise": araising,
+            "praise": functools.partial(raising2, "x"),
+            "apraise": functools.partial(araising2, "x"),
             "partial": functools.partial(plain2, "x"),
             "apartial": functools.partial(coro2, "x"),
         }
@@ -356,14 +375,25 @@ class PoolWorld:
 
         return gen()
 
+    def _mon(self, method, *args):
+        """Monitor code that runs inside a loop step (i.e. inside library/user code): an exception there must not
+        leak into the code under test - it is a harness error."""
+        for m in self.monitors:
+            try:
+                getattr(m, method)(*args)
+            except Exception as e:  # noqa: BLE001
+                import traceback
+
+                self.viol.append(("HARNESS", f"monitor {type(m).__name__}.{method} raised {type(e).__name__}: {e}",
+                                  traceback.format_exc()[-600:]))
+
     # ------------------------------------------------------------------ points
     def point(self, kind, key, tag):
         """A place where the pool has called harness-owned user code."""
         if self.dead or self.probing:
             return
         self.snapshot_created()
-        for m in self.monitors:
-            m.sample(kind, key, tag)
+        self._mon("sample", kind, key, tag)
         inl = self.inline
         if not inl or kind not in inl.get("at", ()):
             return
@@ -412,6 +442,7 @@ class PoolWorld:
             sorted(self.cancel_seen.items()),
             sorted(self.cb_begun.items()),
             sorted(self.cb_done.items()),
+            sorted(self.cb_interrupted.items()),
             self.cb_open,
             sorted(self.reqs.items()),
             sorted(self.pulled.items()),
@@ -443,7 +474,8 @@ class PoolWorld:
 
     def release(self):
         self.dead = True
-        release_loop(self.loop)
+        self.probing = True
+        teardown_loop(self.loop)
 
     def snapshot_created(self):
         for tag, req in self.reqs.items():
@@ -590,6 +622,15 @@ class PoolWorld:
             raise RuntimeError(f"malformed scenario: unknown op {op!r}")
         p = opts.get("p", 0)
         pool = self.pools[p]
+        if name in ("probe_capacity", "probe_cancel", "probe_reject"):
+            # terminal-branch probes run the monitors' own code: their exceptions are harness errors, never op outcomes
+            self.terminated = True
+            for m in self.monitors:
+                if name == "probe_capacity":
+                    m.probe(p)
+                else:
+                    getattr(m, name)(p, *pos)
+            return ("ok",)
         try:
             if name == "apply":
                 tag, num = pos
@@ -598,9 +639,17 @@ class PoolWorld:
                 func = self._make_func(tag, opts.get("worker", self.scen.get("worker", "plain")), opts.get("fault"))
                 if opts.get("plainfunc"):
                     func = lambda *a, **k: None  # noqa: E731
+                if opts.get("partial"):
+                    # func is a functools.partial freezing a keyword that the request's kwargs also carry:
+                    # the request's value must win, as in partial(f, k=a)(k=b)
+                    parg = ("parg", tag)
+                    func = functools.partial(func, parg, k0=("frozen", tag))
+                    args = (parg,) + (args or ())
                 kw = {}
-                if args is not None:
+                if args is not None and not opts.get("partial"):
                     kw["args"] = args
+                elif opts.get("partial") and len(args) > 1:
+                    kw["args"] = args[1:]
                 if kwargs is not None:
                     kw["kwargs"] = kwargs
                 if opts.get("name") is not None:
@@ -748,8 +797,7 @@ class PoolWorld:
             self.closed_pools.add(split_op(op)[2].get("p", 0))
         self.results[(i, pc)] = out
         self.snapshot_created()
-        for m in self.monitors:
-            m.driver_done(i, op, out)
+        self._mon("driver_done", i, op, out)
 
     # ------------------------------------------------------------------ probes (public API only)
     def classify(self, key):
